@@ -784,6 +784,24 @@ func TestC08(t *testing.T) {
 				if cr.chance(4) {
 					asset = f.assets[cr.intn(4)]
 				}
+				// cTokens are per ASSET, not per pool: a user who lends a shared asset (A0, A2) in both pools holds
+				// spare cTokens next to a pledged position - the state in which a withdrawal of pledged collateral
+				// could be paid for. Steer a quarter of the lends there.
+				if cr.chance(25) {
+					for _, ml := range myLends {
+						if ml.AssetID == f.assets[0] || ml.AssetID == f.assets[2] {
+							other := f.pools[0]
+							if ml.PoolID == f.pools[0] {
+								other = f.pools[1]
+							}
+							if _, has := k.GetLendIDForAssetIDPoolID(ctx, us, ml.AssetID, other); !has {
+								pool, _ = k.GetPool(ctx, other)
+								asset = ml.AssetID
+								break
+							}
+						}
+					}
+				}
 				amt := c08Pick(cr, []*big.Int{c08bi(1), c08bi(1000000), c08bi(int64(1000000 + cr.intn(500000000))), c08bi(int64(1000000000 + cr.intn(1000000000))),
 					c08bi(int64(1000000 + cr.intn(500000000))), c08bi(int64(1000000000 + cr.intn(1000000000))), c08bi(int64(100000000 + cr.intn(1000000000))),
 					c08bi(100000000000), c08bi(999999999999), c08bi(2000000000000)})
@@ -815,9 +833,21 @@ func TestC08(t *testing.T) {
 				line = fmt.Sprintf("deposit %d %d %d %s %s", un, l.ID, f.denomID[denom], amt, c08Ipb(f, ctx, l.ID))
 			case kind < 31: // Withdraw
 				l, _ := pickLend()
+				if cr.chance(40) { // prefer an own position with pledged collateral (available < deposited)
+					for _, ml := range myLends {
+						if ml.AvailableToBorrow.LT(ml.AmountIn.Amount) {
+							l = ml
+							break
+						}
+					}
+				}
 				av := l.AvailableToBorrow.BigInt()
-				amt := c08Pick(cr, []*big.Int{c08bi(1), av, new(big.Int).Add(av, c08bi(1)), new(big.Int).Sub(av, c08bi(1)), l.AmountIn.Amount.BigInt(),
-					new(big.Int).Quo(av, c08bi(int64(2+cr.intn(5)))), new(big.Int).Quo(av, c08bi(2))})
+				ain := l.AmountIn.Amount.BigInt()
+				// besides the boundaries of available-to-borrow: amounts strictly between it and the deposited
+				// amount (pledged collateral: must be refused whatever cTokens the owner holds elsewhere)
+				amt := c08Pick(cr, []*big.Int{c08bi(1), av, new(big.Int).Add(av, c08bi(1)), new(big.Int).Sub(av, c08bi(1)), ain,
+					new(big.Int).Quo(av, c08bi(int64(2+cr.intn(5)))), new(big.Int).Quo(av, c08bi(2)),
+					new(big.Int).Quo(new(big.Int).Add(av, ain), c08bi(2)), new(big.Int).Sub(ain, c08bi(1)), new(big.Int).Add(av, c08bi(2))})
 				denom := l.AmountIn.Denom
 				if cr.chance(3) {
 					denom = f.denoms[cr.intn(4)]
